@@ -556,15 +556,20 @@ func (pr *ProtoArray) inSubtree(anchorIndex NodeIndex, lookupIndex NodeIndex) (u
 		return false, false
 	}
 	// shortcut: if they have the same relative head, they are on the same chain.
-	if anchorNode.BestDescendant == lookupIndex || anchorNode.BestDescendant == lookupNode.BestDescendant {
+	// (Two nodes without any best descendant do not have a relative head in common.)
+	hasRelativeHead := anchorNode.BestDescendant != NONE
+	if hasRelativeHead && (anchorNode.BestDescendant == lookupIndex || anchorNode.BestDescendant == lookupNode.BestDescendant) {
 		return false, true
 	}
 	// Root may still be on a different non-canonical branch out of the anchor.
 	for i := lookupNode.TransitionParent; i != NONE && i >= anchorIndex; {
+		if i == anchorIndex {
+			return false, true
+		}
 		tmp := &pr.nodes[i]
 		// early exit: as soon as we find a node that has the same relative head as the anchor,
 		// we know we are in-between the anchor and the head, thus in the subtree, thus an ancestor.
-		if tmp.BestDescendant == anchorNode.BestDescendant {
+		if hasRelativeHead && tmp.BestDescendant == anchorNode.BestDescendant {
 			return false, true
 		}
 		i = tmp.TransitionParent
